@@ -37,6 +37,10 @@ impl CredHandler {
     #[verifier::external_body] pub fn build_from_password_security_key(cred: &Credential, w: &Webauthn) -> (r: Option<CredHandler>) ensures r is Some ==> r->Some_0 is PasswordSecurityKey { unimplemented!() }
     #[verifier::external_body] pub fn kvx_build_passkeys(a: &Account, w: &Webauthn) -> (r: Option<CredHandler>) ensures r is Some ==> r->Some_0 is Passkey { unimplemented!() }
     #[verifier::external_body] pub fn kvx_build_attested(a: &Account, l: &AttestationCaList, w: &Webauthn) -> (r: Option<CredHandler>) ensures r is Some ==> r->Some_0 is AttestedPasskey { unimplemented!() }
+    // re-authentication: the single passkey / attested passkey with that credential id, if the account still has it
+    #[verifier::external_body] pub fn kvx_build_single_passkey(a: &Account, cred_id: Uuid, w: &Webauthn) -> (r: Option<CredHandler>) ensures r is Some ==> r->Some_0 is Passkey { unimplemented!() }
+    #[verifier::external_body] pub fn kvx_build_single_attested(a: &Account, cred_id: Uuid, l: &AttestationCaList, w: &Webauthn) -> (r: Option<CredHandler>) ensures r is Some ==> r->Some_0 is AttestedPasskey { unimplemented!() }
+    #[verifier::external_body] pub fn next_auth_state(&self) -> (r: AuthState) ensures !(r is Denied) { unimplemented!() }
 }
 pub struct Account { pub uuid: Uuid, pub primary: Option<Credential>, pub o: u64 }
 impl Account {
@@ -62,17 +66,44 @@ impl AuthSessionState {
 pub enum AuthState { Choose(Vec<AuthMech>), Denied(String), Other }
 pub struct AuthMech { pub o: u8 }
 #[derive(Clone, Copy)] pub struct AuthIssueSession { pub o: u8 }
-pub enum AuthIntent { InitialAuth { privileged: bool }, Other }
+//@extract AuthIntent
+//@extract AuthType
+//@extract ReauthRequest
+// value::Session / SessionState: the fields new_reauth reads
+pub struct Cid { pub o: u8 }
+pub enum SessionState { RevokedAt(Cid), ExpiresAt(OffsetDateTime), NeverExpires }
+pub struct Session { pub state: SessionState, pub cred_id: Uuid, pub type_: AuthType }
+// the inner `enum State` of new_reauth, lifted out of the function body (R6)
+pub enum State { Expired, NoMatchingCred, Proceed(CredHandler) }
+pub const BAD_CREDENTIALS: &'static str = "y";
 pub struct Source { pub o: u8 } pub struct ClientAuthInfo { pub source: Source }
 pub struct KeyObject { pub o: u8 }
 pub struct AuthSessionData<'a> { pub account: Account, pub account_policy: ResolvedAccountPolicy, pub issue: AuthIssueSession, pub webauthn: &'a Webauthn, pub ct: Duration, pub client_auth_info: ClientAuthInfo, pub oauth2_client_provider: Option<&'a OAuth2ClientProvider> }
 pub struct AuthSession { pub account: Account, pub account_policy: ResolvedAccountPolicy, pub state: AuthSessionState, pub issue: AuthIssueSession, pub intent: AuthIntent, pub source: Source, pub key_object: Arc<KeyObject> }
 #[verifier::external_body] pub fn kvx_to_string(s: &str) -> (r: String) { unimplemented!() }
+// ---- re-authentication (C33 / C27 / C49) ----
+// the handler a re-authentication proceeds with is of the kind the session was created with, on the same credential
+pub open spec fn reauth_handler_ok(h: CredHandler, t: AuthType, cred_id: Uuid, a: Account) -> bool {
+    match t {
+        AuthType::Password | AuthType::GeneratedPassword | AuthType::PasswordBackupCode => h is Password && (a.primary matches Some(p) && p.uuid == cred_id && !is_mfa(p)),
+        AuthType::PasswordTotp => h is PasswordTotp && (a.primary matches Some(p) && p.uuid == cred_id),
+        AuthType::PasswordSecurityKey => h is PasswordSecurityKey && (a.primary matches Some(p) && p.uuid == cred_id),
+        AuthType::Passkey => h is Passkey,
+        AuthType::AttestedPasskey => h is AttestedPasskey,
+        AuthType::Anonymous | AuthType::OAuth2Trust => false,
+    }
+}
+// "re-authentication never extends the overall session expiry": the re-auth session carries the original session's expiry
+pub open spec fn reauth_intent_ok(i: AuthIntent, session_id: Uuid, st: SessionState) -> bool {
+    i matches AuthIntent::Reauth { read_write, session_id: sid, session_expiry } && sid == session_id
+    && match st { SessionState::ExpiresAt(o) => session_expiry == Some(o), SessionState::NeverExpires => session_expiry is None, SessionState::RevokedAt(_) => false }
+}
 // what a session offers: the handlers it was initialised with
 pub open spec fn offered(s: AuthSession) -> Seq<CredHandler> { match s.state { AuthSessionState::Init(h) => ne_seq(h), _ => Seq::empty() } }
 impl AuthSession {
     #[verifier::external_body] pub fn valid_auth_mechs(&self) -> (r: Vec<AuthMech>) { unimplemented!() }
 //@extract as_new
+//@extract as_new_reauth
 }
 }
 fn main(){}
